@@ -77,9 +77,20 @@ Wrapped == {SAlias("T", x) : x \in {SInt05, R_Dict, R_Body}} \cup
 
 \* level-2 shapes every tier includes: nested relaxed dicts under any / contains-lists,
 \* where substitution can fail after validation succeeded
+SNullableStr == AnyOf(<<BareNone, SStrAlpha>>)
+SFloatMinPrec == [BareFloat EXCEPT !.min = Some(VFloat(25)), !.precision = Some(VInt(1))]
+SFloatMaxPrec == [BareFloat EXCEPT !.max = Some(VFloat(75)), !.precision = Some(VInt(2))]
+SFloatMinMax == [BareFloat EXCEPT !.min = Some(VFloat(25)), !.max = Some(VFloat(75))]
+\* scalars whose interplay of bounds, tolerance and pinned values matters to substitution
+SubScalars == {SFloatMinPrec, SFloatMaxPrec, SFloatMinMax, SFloat01, SInt05, SStrAlpha, SNullableStr}
+
 Focus == AnysOver({R_DictRelaxed, R_Dict, SInt1}) \cup
          ListsOver({R_DictRelaxed}, {R_DictRelaxed, R_Any}) \cup
-         DictsOver({R_Any, R_Body})
+         DictsOver({R_Any, R_Body}) \cup
+         \* nullable and optional-none members: a given None is a value like any other
+         DictsOver({SNullableStr, BareNone}) \cup
+         {DictOf(<<DKey(KA, SFloatMinPrec, FALSE), DKey(KB, SFloatMaxPrec, TRUE)>>), TypedList(SFloatMinPrec)} \cup
+         SubScalars
 
 Containers == Level1 \cup Level2 \cup Wrapped \cup Focus
 
